@@ -95,3 +95,41 @@ Definition nx_node_attrs (g : graph) (k : Z) : res attrs := node_attrs g k.
 Definition nx_edge_attrs (g : graph) (u v : Z) : res attrs := edge_attrs g u v.
 Definition nx_add_node (g : graph) (k : Z) (a : attrs) : graph := add_node g k a.
 Definition nx_add_edge (g : graph) (u v : Z) (a : attrs) : graph := add_edge g u v a.
+
+(** ------------------------------------------------------------------ defaultdict(list), itertools (annotate_fragments) *)
+(** hash(v) succeeds: list and dict are unhashable, a tuple is hashable when its elements are *)
+Fixpoint py_hashable (v : pyval) : bool :=
+  match v with
+  | VList _ | VDict _ => false
+  | VTup l => (fix go (l : list pyval) : bool := match l with [] => true | x :: r => py_hashable x && go r end) l
+  | _ => true
+  end.
+(** a defaultdict(list) keyed by Python values, in insertion order.  Keys are compared with [pyval_eqb]: an int
+    key and a bool/float key that Python considers equal (1 == True == 1.0) are kept apart here. *)
+Definition ddl (A : Type) := list (pyval * list A).
+Fixpoint ddl_get {A} (d : ddl A) (k : pyval) : list A :=
+  match d with [] => [] | (k', l) :: r => if pyval_eqb k k' then l else ddl_get r k end.
+Fixpoint ddl_upd {A} (d : ddl A) (k : pyval) (xs : list A) : ddl A :=
+  match d with
+  | [] => [(k, xs)]
+  | (k', l) :: r => if pyval_eqb k k' then (k', l ++ xs) :: r else (k', l) :: ddl_upd r k xs
+  end.
+(** d[k].append(x) and d[k] += xs: the key is created when missing (also for an empty xs) *)
+Definition ddl_append {A} (d : ddl A) (k : pyval) (x : A) : res (ddl A) :=
+  if py_hashable k then Ok (ddl_upd d k [x]) else Err EType.
+Definition ddl_extend {A} (d : ddl A) (k : pyval) (xs : list A) : res (ddl A) :=
+  if py_hashable k then Ok (ddl_upd d k xs) else Err EType.
+(** itertools.combinations(l, r=2) *)
+Definition py_combinations2 {A} (l : list A) : list (A * A) := pairs l.
+
+(** ------------------------------------------------------------------ graph-valued node attributes
+    A graph is not a [pyval]: the 'graph' attribute of the nodes of a coarse graph G is kept beside G as an
+    [fgraphs] store (as the hand-written models do). *)
+Definition nx_Graph : graph := gempty.
+Definition nx_has_edge (g : graph) (u v : Z) : bool := has_edge g u v.
+(** G.nodes[n]['graph'] = h *)
+Definition nx_set_node_graph (g : graph) (store : fgraphs) (n : Z) (h : graph) : res fgraphs :=
+  if has_node g n then Ok (fg_set n h store) else Err EKey.
+(** G.nodes[n].get('graph', None) *)
+Definition nx_get_node_graph (g : graph) (store : fgraphs) (n : Z) : res (option graph) :=
+  if has_node g n then Ok (fg_get n store) else Err EKey.
